@@ -25,10 +25,8 @@ from common import tok, r_str, r_bool, r_pair
 # TODO(PENDING_FINDINGS): signatures of misbehaviours of the UNCHANGED library that the coverage below exposes and that
 # are not yet in known_findings.json; they are routed through report.known_match(signature) (KNOWN-FINDING once the
 # signature is registered) and, while listed here, do not fail the check.
-PENDING_FINDINGS = [
-    "Globber.count_lines raises ValueError('readline of closed file') on a TarFS "
-    "(iterates fs.open(path) without keeping the file object)",
-]
+PENDING_FINDINGS = []    # (count_lines on a TarFS raising 'readline of closed file' was a genuine defect of
+#                          RawWrapper.__iter__, repaired in /repo 68d28fe: a violation again if it returns)
 
 WTOK = ["a", "B", ".", "*", "?", "[ab]", "[!a]", "[a-c]", "-", "]", "["]
 WNAMES = ["", "a", "b", "B", "ab", "a.b", "abc", "a/b", "a\nb", "[", "-", "A", "c", "]", "ba"]
